@@ -345,7 +345,10 @@ def r15_3(ctx: Ctx, rep: Report) -> None:
                 if isinstance(t, ast.Name):
                     t = deep_resolve(t, p.env)  # `is_block = isinstance(other, AceGroup)` ... `if is_block and ...`
                 if isinstance(t, ast.Compare) and len(t.ops) == 1 and isinstance(t.ops[0], (ast.Eq, ast.NotEq)):
-                    cl, cr = chain(t.left), chain(t.comparators[0])
+                    # `sequence = other.sequence` ... `self._sequence == sequence`: a local standing for the attribute
+                    tl = deep_resolve(t.left, p.env) if isinstance(t.left, ast.Name) else t.left
+                    tr_ = deep_resolve(t.comparators[0], p.env) if isinstance(t.comparators[0], ast.Name) else t.comparators[0]
+                    cl, cr = chain(tl), chain(tr_)
                     if cl and cr and cl[-1].lstrip("_") == cr[-1].lstrip("_") == "sequence" and {cl[0], cr[0]} == {"self", other}:
                         differ = truth == isinstance(t.ops[0], ast.NotEq)
                         first_seq = differ
